@@ -62,7 +62,7 @@ def systematic(i):
         return None
     n = i % 4
     fault_at = (i // 4) % 40
-    kind = (i // 160) % 3
+    kind = (i // 160) % 3       # crash / eio / enospc (the 'short' kind is drawn in the seeded part)
     #       nimg nfiles  file names   sizes (100 bytes; index.wtml 300)   inject fault_at kind
     return [0, n] + [0] * n + [2] * (n + 1) + [0, fault_at, kind]
 
@@ -98,7 +98,7 @@ class Controller(object):
         self.log.append("FAULT %s %s" % (self.fault_kind, what))
         if self.fault_kind == "crash":
             raise Crash(what)
-        code = errno.EIO if self.fault_kind == "eio" else errno.ENOSPC
+        code = errno.EIO if self.fault_kind == "eio" else errno.ENOSPC     # 'short' on a buffered file surfaces as ENOSPC on the retry
         raise OSError(code, "injected %s at %s" % (self.fault_kind, what))
 
     def point(self, what):
@@ -109,17 +109,27 @@ class Controller(object):
         if self.fault_at is not None and self.n == self.fault_at and self.fired is None:
             self._raise(what)
 
-    def write_point(self, raw, data, rel):
+    def write_point(self, raw, data, rel, unbuffered=False):
+        """One transfer of bytes to the disk.  Returns the number of bytes accepted (all of them unless a 'short'
+        fault fires on a file that toasty opened unbuffered: then, like write(2) on a nearly full disk, it accepts
+        a prefix and returns the short count without an error)."""
         if not self.active:
             raw.write(data)
-            return
+            return len(data)
         self.n += 1
         self.log.append("write %s %d" % (rel, len(data)))
         if self.fault_at is not None and self.n == self.fault_at and self.fired is None:
             k = self.ch.draw(len(data) + 1, kind="torn_k")
             raw.write(data[:k])
+            if self.fault_kind == "short" and unbuffered:
+                self.fired = "write %s short count %d/%d (no error)" % (rel, k, len(data))
+                self.faults["fault_write"] = self.faults.get("fault_write", 0) + 1
+                self.faults["short_count_write"] = self.faults.get("short_count_write", 0) + 1
+                self.log.append("FAULT short %s" % self.fired)
+                return k
             self._raise("write %s torn at %d/%d" % (rel, k, len(data)))
         raw.write(data)
+        return len(data)
 
 
 _ctl = [None]
@@ -189,8 +199,10 @@ class FaultyWriter(object):
 
     BUFSIZE = 8192
 
-    def __init__(self, path, c, mode="wb"):
+    def __init__(self, path, c, mode="wb", unbuffered=False):
         self.c = c
+        self.unbuffered = unbuffered    # toasty asked for buffering=0: write() is one write(2) and may return a short count
+        self.full = False
         self.rel = os.path.relpath(path, c.root)
         self.raw = _real_open(path, mode, buffering=0)      # 'xb' raises FileExistsError like the real open
         self.closed = False
@@ -209,6 +221,13 @@ class FaultyWriter(object):
 
     def write(self, data):
         data = bytes(data)
+        if self.unbuffered:
+            if self.full:
+                raise OSError(errno.ENOSPC, "injected: no space left on device (after a short write)")
+            n = self.c.write_point(self.raw, data, self.rel, unbuffered=True)
+            if n < len(data):
+                self.full = True
+            return n
         self.buf += data
         if len(self.buf) >= self.BUFSIZE:
             self._drain()
@@ -243,7 +262,8 @@ def _open_pipeline(path, mode="r", *a, **kw):
 def _open_local_io(path, mode="r", *a, **kw):
     c = ctl()
     if c is not None and c.active and any(m in mode for m in "wxa") and "b" in mode and "+" not in mode:
-        return FaultyWriter(path, c, ("x" if "x" in mode else "a" if "a" in mode else "w") + "b")
+        buffering = a[0] if a else kw.get("buffering", -1)
+        return FaultyWriter(path, c, ("x" if "x" in mode else "a" if "a" in mode else "w") + "b", unbuffered=(buffering == 0))
     return _real_open(path, mode, *a, **kw)
 
 
@@ -385,7 +405,7 @@ def run_one(ch, env):
             kind = None
             if faulty_allowed and ch.draw(8, kind="inject") != 7:
                 fault_at = 1 + ch.draw(72, kind="fault_at")
-                kind = ("crash", "eio", "enospc")[ch.draw(3, p0=0.6, kind="fault_kind")]
+                kind = ("crash", "eio", "enospc", "short")[ch.draw(4, p0=0.55, kind="fault_kind")]
             c.arm(fault_at, kind)
             c.at_rename_after_last_transfer = False
             pre_index = [u for u in images if os.path.exists(os.path.join(store, u, "index.wtml")) and os.path.isdir(os.path.join(work, "approved", u))]
